@@ -47,6 +47,10 @@ class Unbound(Undecided):
         self.name = name
 
 
+class RuntimeFailure(Exception):
+    """The evaluated code certainly raises at run time on this configuration (e.g. the truth value of an array)."""
+
+
 class _Return(Exception):
     def __init__(self, value):
         self.value = value
@@ -372,9 +376,9 @@ class Interp:
                     t = self.truth(self.ev(s.test, env))
                 except Undecided:
                     return      # a validation guard on symbolic data: accepted inputs pass it
-                if t:
+                if t and any(isinstance(x, ast.Raise) for x in s.body):
                     raise Undecided(f"the configuration is rejected by `{norm(s.test)[:60]}`")
-                return
+                return      # a warning only: nothing to evaluate
             t = self.truth(self.ev(s.test, env))
             self.block(s.body if t else s.orelse, env)
             return
@@ -500,10 +504,18 @@ class Interp:
             return False
         if isinstance(v, (list, tuple, dict, str, range)):
             return len(v) > 0
+        if isinstance(v, np.ndarray):
+            if v.size > 1:
+                raise RuntimeFailure("the truth value of an array with more than one element is ambiguous (ValueError)")
+            if v.size == 1:
+                return self.truth(v.flatten()[0])
+            return False
         if isinstance(v, (Obj, Fn, Closure)):
             return True
         if isinstance(v, (sp.Integer, sp.Rational)):
             return bool(v != 0)
+        if isinstance(v, sp.Basic) and v.is_zero is not None and v is not sp.nan:
+            return not v.is_zero
         if isinstance(v, sp.logic.boolalg.BooleanAtom):
             return bool(v)
         raise Undecided("a test on symbolic data")
@@ -649,15 +661,16 @@ class Interp:
         if isinstance(e, ast.BinOp):
             return self.binop(e.op, self.ev(e.left, env), self.ev(e.right, env))
         if isinstance(e, ast.BoolOp):
-            vals = []
+            # Python semantics: the value of the deciding operand, short-circuit evaluation
+            v = None
             for x in e.values:
-                t = self.truth(self.ev(x, env))
+                v = self.ev(x, env)
+                t = self.truth(v)
                 if isinstance(e.op, ast.And) and not t:
-                    return False
+                    return v
                 if isinstance(e.op, ast.Or) and t:
-                    return True
-                vals.append(t)
-            return isinstance(e.op, ast.And)
+                    return v
+            return v
         if isinstance(e, ast.Compare):
             return self.compare(e, env)
         if isinstance(e, ast.IfExp):
@@ -891,6 +904,8 @@ class Interp:
                 kw.update(d)
         if isinstance(f, (Fn, Closure, Cls)):
             return f(*args, **kw) if not isinstance(f, Fn) else f(*args)
+        if isinstance(f, Obj) and "__call__" in f.attrs:
+            return f.attrs["__call__"](*args, **kw)
         if callable(f) and not isinstance(f, tuple):
             return f(*args, **kw)
         if isinstance(f, tuple) and f[0] == "modfunc":
@@ -1052,6 +1067,9 @@ class Interp:
             names = {k[1] for k in kinds if isinstance(k, tuple)}
             if names == {"ndarray"}:
                 return isinstance(v, np.ndarray)
+            if names and names <= {"list", "tuple", "dict", "str"}:
+                return isinstance(v, tuple({"list": list, "tuple": tuple, "dict": dict, "str": str}[n_] for n_ in names)) and \
+                    not hasattr(v, "_fields")
             if names and names <= {"int", "int32", "int64", "integer", "Integral"}:
                 return isinstance(v, (int, np.integer, sp.Integer)) and not isinstance(v, bool)
             names = {"int" if n_ in ("int32", "int64", "integer") else "float" if n_ in ("float64", "float32", "floating") else n_ for n_ in names}
@@ -1217,6 +1235,14 @@ class Interp:
             return np.flatnonzero(args[0])
         if name == "where" and len(args) == 1 and isinstance(args[0], np.ndarray) and args[0].dtype == bool:
             return tuple(np.where(args[0]))
+        if name == "where" and len(args) == 3 and isinstance(args[0], np.ndarray) and args[0].dtype == bool:
+            x = args[1] if isinstance(args[1], np.ndarray) else _obj_array(args[1])
+            y = args[2] if isinstance(args[2], np.ndarray) else _obj_array(args[2])
+            c, x, y = np.broadcast_arrays(args[0], x.astype(object), y.astype(object))
+            out = np.empty(c.shape, dtype=object)
+            for idx in np.ndindex(c.shape):
+                out[idx] = x[idx] if c[idx] else y[idx]
+            return out
         if name == "exp":
             v = args[0]
             if isinstance(v, np.ndarray):
@@ -1301,6 +1327,16 @@ class Interp:
                     if w is not None and w == 0.0 and isinstance(u, sp.Basic) and u.free_symbols and u.free_symbols <= self.generic:
                         return False
             raise Undecided(f"np.{name} of symbolic data")
+        if name == "nan_to_num":
+            v = args[0]
+            def one(x):
+                return sp.Integer(0) if (x is sp.nan or (isinstance(x, float) and x != x)) else x
+            if isinstance(v, np.ndarray):
+                out = np.empty(v.shape, dtype=object)
+                for idx in np.ndindex(v.shape):
+                    out[idx] = one(v[idx])
+                return out
+            return one(v)
         if name == "isnan":
             v = args[0] if isinstance(args[0], np.ndarray) else _obj_array(args[0])
             out = np.empty(v.shape, dtype=bool)
